@@ -457,6 +457,35 @@ theorem allowed_congr (S : Suite) (user : List (String × VLine)) (w v : Worker)
   funext vm
   simp only [allowed, h]
 
+theorem product_mono (f g : String → List String) (h : ∀ vm v, v ∈ f vm → v ∈ g vm) :
+    ∀ (vms : List String) (a : Asg), a ∈ product (vms.map (fun vm => (vm, f vm))) →
+      a ∈ product (vms.map (fun vm => (vm, g vm)))
+  | [], a, ha => by simpa [product] using ha
+  | vm :: rest, a, ha => by
+    simp only [List.map_cons, product, List.mem_flatMap, List.mem_map] at ha ⊢
+    obtain ⟨v, hv, a', ha', rfl⟩ := ha
+    exact ⟨v, h vm v hv, a', product_mono f g h rest a' ha', rfl⟩
+
+theorem allowedFor_mono (allow allow' : String → List String) (h : ∀ vm v, v ∈ allow' vm → v ∈ allow vm)
+    (t : Test) (vm v : String) (hv : v ∈ allowedFor allow' t vm) : v ∈ allowedFor allow t vm := by
+  unfold allowedFor at hv ⊢
+  cases hfind : t.only.find? (fun e => e.1 == vm) with
+  | none => rw [hfind] at hv; exact h vm v hv
+  | some e =>
+    rw [hfind] at hv
+    simp only [List.mem_filter] at hv ⊢
+    exact ⟨h vm v hv.1, hv.2⟩
+
+/-- a worker that may use fewer variants selects fewer leaf nodes, never others -/
+theorem leafAsgs_mono (S : Suite) (allow allow' : String → List String)
+    (h : ∀ vm v, v ∈ allow' vm → v ∈ allow vm) (t : Test) (a : Asg) (ha : a ∈ leafAsgs S allow' t) :
+    a ∈ leafAsgs S allow t := by
+  unfold leafAsgs asgs at ha ⊢
+  refine product_mono (fun vm => choices allow' [] t vm) (fun vm => choices allow [] t vm) ?_ _ a ha
+  intro vm v hv
+  simp only [choices, List.find?_nil] at hv ⊢
+  exact allowedFor_mono allow allow' h t vm v hv
+
 /-! ## lazy parsing -/
 
 theorem mem_lazyNodes (S : Suite) (allow : String → List String) (order : List Test) (i : Inst) :
